@@ -7,7 +7,7 @@ import collections
 from .. import gen, probe, spec
 from ..mon_core import is_library_value_error
 from ..probe import violation
-from .common import scale_leg, call
+from .common import growth_sweep, long_lived, scale_leg, call
 
 PROP = "C08"
 LEVEL = "exploration"
@@ -48,13 +48,23 @@ def malformed(d):
 def run_case(ctx, g, rng):
     api, S = ctx.api, probe.S
     scale_leg(ctx, rng, rng.choice([":", ":", "/", "::"]), modes=True, g=g)
+    growth_sweep(ctx, rng, rng.choice([":", ":", "/"]), g)
+    long_lived(ctx, rng, rng.choice([":", "/"]), g)
     d = rng.choice(gen.DELIMS)
     recs = gen.records(rng, d, 0, 4, allow_delim=rng.random() < 0.15)
     c, how = gen.build(api, recs, d, rng)
+    hooked = g % 7 == 3 and bool(recs)
+    if hooked:
+        # a user subclass that customises the documented identifier hook - directly, through a parent class or through
+        # a mixin: the relations between the modes of one call bind it like any converter
+        c = gen.hooked_subclass(api)([gen.mk_record(api, r) for r in recs], delimiter=d)
+        S.counters["wl:hooked-subclass-converters:" + type(c).__name__] += 1
     allp = [p for r in recs for p in spec.all_p(r)]
     allu = [u for r in recs for u in spec.all_u(r)]
     inputs = malformed(d) + gen.URL_HOSTILE + [rng.choice(gen.UNICODE), *(x + d + "1" for x in gen.SPECIAL_PREFIXES), *(x + "1" for x in gen.SPECIAL_URIS), *gen.SPECIAL_PREFIXES]
     inputs += [p + d + rng.choice(gen.IDS) for p in allp[:4]] + [u + rng.choice(gen.IDS) for u in allu[:4]] + allp[:2] + [u[:-1] for u in allu[:2]]
+    if hooked:
+        inputs += [p + d + sp_ + d + "7" for p in allp[:3] for sp_ in [recs[0].prefix]] + [p + d + "no!" for p in allp[:3]]
     inputs = list(dict.fromkeys(inputs))
     phases = [(inputs, None)]
     if g % 2 == 0:
